@@ -160,6 +160,22 @@ func run(e *core.Env) {
 	for i := 0; i < nTasks; i++ {
 		fns = append(fns, mkTask(i))
 	}
+	// In a quarter of the end-to-end runs a key setup is *refused* on the live session while the
+	// senders seal: a hello request of the peer whose exchange key is a low-order point (32 zero
+	// bytes: accepted as a key, refused by the exchange), or a completion without a pending
+	// exchange. A refused setup installs nothing - the keys stay, and so must the counters.
+	refusedSetup, refusedErr := false, error(nil)
+	if !link && tp.Chance(1, 4) {
+		refusedSetup = true
+		lowOrder := tp.Chance(1, 2)
+		fns = append(fns, func() {
+			if lowOrder {
+				_, _, refusedErr = sEnc.InitKeyServer(make([]byte, 32), kxt)
+			} else {
+				refusedErr = sEnc.InitKeyClientComplete(kx2, kxt2)
+			}
+		})
+	}
 	// Swarm: per run a different appetite for switching (tight vs long runs).
 	switchDen := []int{2, 3, 5, 10, 40}[tp.Intn(5)]
 	stats := simsync.RunTasks(func(n, cur int) int {
@@ -176,6 +192,14 @@ func run(e *core.Env) {
 	}
 	for _, p := range stats.Panics {
 		e.Fail("seal-failed-or-panicked", "a sender task failed: %v", p)
+	}
+	if refusedSetup {
+		if refusedErr == nil {
+			// the setup went through: new keys, another history than the one this run is about
+			e.Probe("key_setup_expected_to_be_refused_went_through")
+			return
+		}
+		e.Probe("key_setup_refused_on_the_live_session")
 	}
 	k1 := append([]byte(nil), sh.OutKey()...)
 	rolled := !bytes.Equal(k0, k1)
